@@ -115,6 +115,59 @@ func vLookup(repo rule.Repository, p vProbe) string {
 var vPathPool = []string{
 	"/a", "/a/b", "/a/:x", "/a/:x/c", "/a/:x/d", "/a/*rest", "/a/**", "/ab", "/abc", "/ab/:*",
 	"/:x", "/:x/b", "/**", `/a/\:x`, "/x/y/z", "/x/y", "/x/yz", "/a/:y", "/a/b/:*", "/a/b/c",
+	// expressions ending in a separator own the node free wildcards hang below; generic fallbacks two levels up
+	"/a/", "/:x/*rest", "/:x/", "/a/b/", "/:x/:y",
+}
+
+// clustered pools: expressions sharing one prefix (so that nodes with children gain and lose values) plus generic
+// fallbacks further up the tree
+var (
+	vClusterPrefixes = []string{"/a", "/:x", "/x"}
+	vClusterSuffixes = []string{"", "/", "/*rest", "/**", "/:y", "/c", "/:y/c"}
+	vClusterGenerics = []string{"/**", "/:x/*rest", "/:x/**", "/:x/:y", "/*rest"}
+)
+
+func vAllExpressions() []string {
+	seen := map[string]bool{}
+	var out []string
+	add := func(e string) {
+		if !seen[e] {
+			seen[e] = true
+			out = append(out, e)
+		}
+	}
+	for _, e := range vPathPool {
+		add(e)
+	}
+	for _, p := range vClusterPrefixes {
+		for _, sfx := range vClusterSuffixes {
+			add(p + sfx)
+		}
+	}
+	for _, g := range vClusterGenerics {
+		add(g)
+	}
+	return out
+}
+
+// vDrawPool draws the per-run pool of path expressions, biased to collide.
+func vDrawPool(s *simcore.Source, minSize, spread int) []string {
+	var pool []string
+	if s.Draw(2, "pool-mode") == 0 {
+		n := minSize + s.Draw(spread, "pool")
+		for i := 0; i < n; i++ {
+			pool = append(pool, simcore.Pick(s, vPathPool, "pool-path"))
+		}
+		return pool
+	}
+	prefix := simcore.Pick(s, vClusterPrefixes, "cluster-prefix")
+	for _, sfx := range simcore.Subset(s, vClusterSuffixes, 2, "cluster-suffixes") {
+		pool = append(pool, prefix+sfx)
+	}
+	for _, g := range simcore.Subset(s, vClusterGenerics, 1, "cluster-generics") {
+		pool = append(pool, g)
+	}
+	return pool
 }
 
 // expressions no tree accepts, whatever its content
@@ -125,7 +178,7 @@ var vHosts = []string{"h1", "h2"}
 
 func vProbes() []vProbe {
 	paths := map[string]bool{"/": true, "/zz": true, "/a/": true, "/a/b/c/d": true, "/ab/c": true, "/a/:x": true, "/x": true, "/abcd": true}
-	for _, e := range vPathPool {
+	for _, e := range vAllExpressions() {
 		for _, fill := range [][2]string{{"v1", "p/q"}, {"b", "p"}, {"ab", "b/c"}} {
 			segs := strings.Split(e, "/")
 			for i, s := range segs {
